@@ -36,7 +36,7 @@ void sim_alloc_report(void)
 		sim_trace("FC alloc null %ld", alloc_failed);
 }
 
-int sim_alloc_should_fail(const char *fn, void *caller)
+int sim_alloc_should_fail2(const char *fn, void *caller, void *caller2)
 {
 	if (!sim_active)
 		return 0;
@@ -44,16 +44,24 @@ int sim_alloc_should_fail(const char *fn, void *caller)
 	if ((alloc_fail_at && k == alloc_fail_at) || (alloc_fail_from && k >= alloc_fail_from)) {
 		alloc_failed++;
 		if (alloc_failed <= 4)
-			sim_trace("F alloc %s %ld caller=%p", fn, k, caller);
+			sim_trace("F alloc %s %ld caller=%p caller2=%p", fn, k, caller, caller2);
 		errno = ENOMEM;
 		return 1;
 	}
 	return 0;
 }
 
+int sim_alloc_should_fail(const char *fn, void *caller)
+{
+	return sim_alloc_should_fail2(fn, caller, NULL);
+}
+
+/* level-1 return address: valid because every object is built with -fno-omit-frame-pointer */
+#define CALLER2 __builtin_extract_return_addr(__builtin_return_address(1))
+
 void *__wrap_malloc(size_t n)
 {
-	if (sim_alloc_should_fail("malloc", __builtin_return_address(0)))
+	if (sim_alloc_should_fail2("malloc", __builtin_return_address(0), CALLER2))
 		return NULL;
 	void *p = __real_malloc(n);
 	if (p && junk_on && sim_active)
@@ -63,14 +71,14 @@ void *__wrap_malloc(size_t n)
 
 void *__wrap_calloc(size_t a, size_t b)
 {
-	if (sim_alloc_should_fail("calloc", __builtin_return_address(0)))
+	if (sim_alloc_should_fail2("calloc", __builtin_return_address(0), CALLER2))
 		return NULL;
 	return __real_calloc(a, b);
 }
 
 void *__wrap_realloc(void *old, size_t n)
 {
-	if (sim_alloc_should_fail("realloc", __builtin_return_address(0)))
+	if (sim_alloc_should_fail2("realloc", __builtin_return_address(0), CALLER2))
 		return NULL;
 	if (junk_on && sim_active) {
 		size_t oldsz = old ? malloc_usable_size(old) : 0;
@@ -84,14 +92,14 @@ void *__wrap_realloc(void *old, size_t n)
 
 char *__wrap_strdup(const char *s)
 {
-	if (sim_alloc_should_fail("strdup", __builtin_return_address(0)))
+	if (sim_alloc_should_fail2("strdup", __builtin_return_address(0), CALLER2))
 		return NULL;
 	return __real_strdup(s);
 }
 
 char *__wrap_strndup(const char *s, size_t n)
 {
-	if (sim_alloc_should_fail("strndup", __builtin_return_address(0)))
+	if (sim_alloc_should_fail2("strndup", __builtin_return_address(0), CALLER2))
 		return NULL;
 	return __real_strndup(s, n);
 }
